@@ -177,6 +177,28 @@ def run(facts, res):
                      for x in walk(idx_term))
             if set_param and last_ and via_index and d0:
                 has_max = maps_index = dflt0 = flows = True
+        if not (has_max and maps_index) and idx_term is not None:
+            # fold form of the maximum: `anchors.iter().map(index).fold(0, u32::max)` (or a closure `|a, b| a.max(b)`)
+            for x in walk(idx_term):
+                if x[0] == "call" and callee_name(x) == "fold" and len(x[2]) >= 3:
+                    init0 = any(y[0] == "const" and y[1] == "int" and y[2] == 0 for y in walk(x[2][1]))
+                    f_ = x[2][2]
+                    is_max = any(y[0] == "const" and y[1] == "fn" and str(y[2]).endswith("::max") for y in walk(f_))
+                    if not is_max:
+                        cl_ = next((y for y in walk(f_) if y[0] == "closure"), None)
+                        cb_ = facts.body(cl_[1]) if cl_ is not None else None
+                        if cb_ is not None:
+                            ct_ = du_of(cb_).local_term(0, 8)
+                            is_max = peel(ct_)[0] == "call" and callee_name(peel(ct_)) == "max" and \
+                                {y[1] for y in walk(ct_) if y[0] == "param"} >= {2, 3}
+                    ch_ = [callee_name(c_) for c_ in iter_chain(x[2][0])]
+                    sel_ = set(ch_) & {"filter", "skip", "take", "rev", "step_by", "filter_map", "take_while", "skip_while"}
+                    via_index = contains_call(x[2][0], "index") or any(y[0] == "const" and y[1] == "fn" and str(y[2]).endswith("DeltaId::index") for y in walk(x[2][0])) or \
+                        any(y[0] == "closure" and facts.body(y[1]) is not None and (contains_call(du_of(facts.body(y[1])).local_term(0, 8), "index") or
+                                                                                    any(z[0] == "field" and z[2] == "0" for z in walk(du_of(facts.body(y[1])).local_term(0, 8))))
+                            for y in walk(x[2][0]))
+                    if init0 and is_max and via_index and not sel_:
+                        has_max = maps_index = dflt0 = flows = True
         res.instance("I2", "new_from_anchors: index = max(parent.index()) [%s/%s], default 0 [%s], + 1 [%s], flows into field 0 [%s]" % (
             has_max, maps_index, dflt0, plus1, flows), ctor.loc())
         if not (has_max and maps_index and dflt0 and plus1 and flows):
